@@ -234,3 +234,34 @@ func VHJagged() {
 		vCover("jagged: fewer rows than height")
 	}
 }
+
+// VHString: String() lists exactly the cells, row by row (concrete contents: the text is then an
+// ordinary string for the engine as well; the punctuation is not fixed by the property, the
+// sequence of values and the number of rows are).
+func VHString() {
+	w, h := 1+vChoose("w", 3), 1+vChoose("h", 3)
+	a := New2D[int](w, h)
+	for y := 0; y < h; y++ {
+		for x := 0; x < w; x++ {
+			a.Set(x, y, 10*y+x-5)
+		}
+	}
+	s := a.String()
+	got := vParseInts(s)
+	vAssert(len(got) == w*h, "String lists every cell exactly once")
+	k := 0
+	for y := 0; y < h; y++ {
+		for x := 0; x < w; x++ {
+			if k < len(got) {
+				vAssert(got[k] == 10*y+x-5, "String lists the cells row by row, left to right")
+			}
+			k++
+		}
+	}
+	vAssert(vCountByte(s, '[') == h+1 && vCountByte(s, ']') == h+1, "String brackets the array and each of its rows")
+	e := New2D[int](0, 0)
+	vAssert(len(vParseInts(e.String())) == 0, "String of an empty array lists no cell")
+	if w >= 2 && h >= 2 && w != h {
+		vCover("string: non-square array")
+	}
+}
